@@ -71,8 +71,30 @@ def _split_root(doc):
     return s[:j], s[j:k + 1], s[k + 1:]
 
 
-def hostile(doc, scratch):
-    """yield (kind, bytes) hostile variants of a valid document text"""
+def is_entity_kind(k):
+    return k.split("/")[0] in ENTITY_KINDS
+
+
+TEXT_ENCODINGS = [None, "UTF-8", "ISO-8859-1", "US-ASCII", "UTF-16", "windows-1252"]
+
+
+def hostile(doc, scratch, text_variants=False, rng=None, per_kind=2):
+    """yield (kind, data) hostile variants of a valid document text.  data is bytes; with text_variants also the same documents as str
+    (entry points that take text), with and without an XML declaration naming an encoding - what a str 'is encoded in' is whatever the
+    declaration claims, and the parser path may depend on it.  Bytes in a declared single-byte encoding are always included."""
+    for k, data in _hostile(doc, scratch):
+        yield k, data
+        if not is_entity_kind(k) or k.startswith("utf16"):
+            continue
+        txt = data.decode("utf-8")
+        yield k + "/bytes:iso-8859-1", ('<?xml version="1.0" encoding="ISO-8859-1"?>' + txt).encode("latin-1", "replace")
+        if text_variants:
+            encs = TEXT_ENCODINGS if rng is None else rng.sample(TEXT_ENCODINGS, per_kind)
+            for enc in encs:
+                yield k + "/str:" + (enc or "no-declaration"), (('<?xml version="1.0" encoding="%s"?>' % enc) if enc else "") + txt
+
+
+def _hostile(doc, scratch):
     c, d = canary_paths(scratch)
     prolog, stag, rest = _split_root(doc)
     selfclosing = stag.endswith("/>")
@@ -296,8 +318,8 @@ def run_case(case, ctx):
             base = o.call(ep, "valid", fn, doc, "any")
             if base[0] != "value" or base[1] is None:
                 o.hit("valid_document_not_accepted")
-            for k, data in hostile(doc, scratch):
-                o.call(ep, k, fn, data, "raise" if k in ENTITY_KINDS else "any")
+            for k, data in hostile(doc, scratch, True, rng if ctx.tier == "quick" else None):
+                o.call(ep, k, fn, data, "raise" if is_entity_kind(k) else "any")
             for k, data in malformed(doc, rng, case["trunc"]):
                 o.call(ep, k, fn, data, "raise-or-none")
     elif kind == "soap":
@@ -314,10 +336,10 @@ def run_case(case, ctx):
             if n == "create_class_from_xml_string":
                 for cls, doc in ((samlp.AuthnRequest, msgs["authn_request"]), (samlp.Response, msgs["response"])):
                     f = (lambda c: (lambda d: saml2_tophat.create_class_from_xml_string(c, d)))(cls)
-                    _battery(o, ep + "[%s]" % cls.__name__, f, doc, scratch, rng, case["trunc"])
+                    _battery(o, ep + "[%s]" % cls.__name__, f, doc, scratch, rng, case["trunc"], text_variants=True)
                 continue
             if n == "extension_element_from_string":
-                _battery(o, ep, fn, msgs["authn_request"], scratch, rng, case["trunc"])
+                _battery(o, ep, fn, msgs["authn_request"], scratch, rng, case["trunc"], text_variants=True)
                 continue
             inner = msgs["response"] if "response" in n else msgs["authn_request"]
             envelope = pack.make_soap_enveloped_saml_thingy(inner)
@@ -331,7 +353,7 @@ def run_case(case, ctx):
                 f = lambda d: pack.parse_soap_enveloped_saml(d, samlp.AuthnRequest)
             else:
                 f = fn
-            _battery(o, ep, f, envelope, scratch, rng, case["trunc"], inner_too=inner)
+            _battery(o, ep, f, envelope, scratch, rng, case["trunc"], inner_too=inner, text_variants=True)
     elif kind == "protocol":
         from saml2_tophat import BINDING_HTTP_POST, BINDING_HTTP_REDIRECT, BINDING_SOAP
         import saml2_tophat.pack as pack
@@ -377,7 +399,7 @@ def run_case(case, ctx):
             if b == "soap":
                 # hostile material inside the enveloped message as well
                 for k, data in hostile(reqxml if "server" in ep or "soap_message" in ep else respxml, scratch):
-                    if k.startswith("utf16") or k == "utf8-bom":
+                    if k.startswith("utf16") or k == "utf8-bom" or "/" in k:
                         continue
                     txt = data.decode("utf-8")
                     # a DOCTYPE cannot stand inside an element; move it in front of the envelope
@@ -390,7 +412,7 @@ def run_case(case, ctx):
                         payload = txt[:end] + wrap_soap(txt[end:])
                     else:
                         payload = wrap_soap(txt)
-                    o.call("%s[%s]" % (ep, b), k + "/inner", f, payload, "raise" if k in ENTITY_KINDS else "any")
+                    o.call("%s[%s]" % (ep, b), k + "/inner", f, payload, "raise" if is_entity_kind(k) else "any")
     elif kind == "metadata":
         from saml2_tophat import mdstore
         from saml2_tophat.attribute_converter import ac_factory
@@ -421,7 +443,7 @@ def run_case(case, ctx):
 
         for ep, f in (("mdstore.InMemoryMetaData.parse", load_mem), ("mdstore.MetaDataFile.load", load_file), ("mdstore.MetadataStore.imp[inline]", load_store)):
             for doc, tag in ((mdxml, "entity"), (wrapped, "entities")):
-                _battery(o, "%s[%s]" % (ep, tag), f, doc, scratch, rng, case["trunc"])
+                _battery(o, "%s[%s]" % (ep, tag), f, doc, scratch, rng, case["trunc"], text_variants=True)
     elif kind == "strace":
         return run_traced(case, ctx)
     elif kind == "signed":
@@ -435,7 +457,7 @@ def run_case(case, ctx):
             for k, pre in (("external-dtd-only", '<!DOCTYPE r SYSTEM "file://%s">' % d), ("xml-stylesheet-pi", '<?xml-stylesheet href="file://%s"?>' % c),
                            ("comment", "<!-- c -->"), ("internal-entity", '<!DOCTYPE r [<!ENTITY e "x">]>')):
                 f = lambda data: sp.parse_authn_request_response(base64.b64encode(data).decode(), "urn:oasis:names:tc:SAML:2.0:bindings:HTTP-POST", {"id-req-1": "/"})
-                o.call("client.parse_authn_request_response[signed]", k, f, (pre + body).encode("utf-8"), "raise" if k in ENTITY_KINDS else "any")
+                o.call("client.parse_authn_request_response[signed]", k, f, (pre + body).encode("utf-8"), "raise" if is_entity_kind(k) else "any")
     uniq = {}
     for v in o.viol:
         uniq.setdefault(v["key"] + "|" + v["what"].split(" <- ")[0][-60:], v)
@@ -513,12 +535,12 @@ def run_traced(case, ctx):
             "evals": counters["traced_runs"]}
 
 
-def _battery(o, ep, f, doc, scratch, rng, ntrunc, inner_too=None):
+def _battery(o, ep, f, doc, scratch, rng, ntrunc, inner_too=None, text_variants=False):
     base = o.call(ep, "valid", f, doc, "any")
     if base[0] != "value":
         o.hit("valid_document_not_accepted")
-    for k, data in hostile(doc, scratch):
-        o.call(ep, k, f, data, "raise" if k in ENTITY_KINDS else "any")
+    for k, data in hostile(doc, scratch, text_variants):
+        o.call(ep, k, f, data, "raise" if is_entity_kind(k) else "any")
     for k, data in malformed(doc, rng, ntrunc):
         o.call(ep, k, f, data, "raise-or-none")
 
